@@ -21,6 +21,9 @@ import (
 type fragReader struct {
 	data  []byte
 	frags []int
+	// eofWithData: the read that delivers the last bytes returns them together with io.EOF, which the io.Reader
+	// contract allows (HTTP bodies, decompressors and iotest.DataErrReader do it)
+	eofWithData bool
 }
 
 func (r *fragReader) Read(p []byte) (int, error) {
@@ -39,6 +42,9 @@ func (r *fragReader) Read(p []byte) (int, error) {
 	}
 	copy(p, r.data[:n])
 	r.data = r.data[n:]
+	if r.eofWithData && len(r.data) == 0 {
+		return n, io.EOF
+	}
 	return n, nil
 }
 
@@ -98,7 +104,7 @@ func implChunkBuffered(line string) string {
 			frags = append(frags, v)
 		}
 	}
-	return chunkSeq(&fragReader{data: unhx(a["data"]), frags: frags}, min, avg, max)
+	return chunkSeq(&fragReader{data: unhx(a["data"]), frags: frags, eofWithData: a["rd"] == "eof"}, min, avg, max)
 }
 
 // implChunkOps: a sequence of Next (N) and Advance (A<n>) calls on a chunker over a seekable reader
@@ -369,6 +375,9 @@ func runC02(cfg Config) {
 				}
 			}
 			bl := mkCase("chunk.buffered", p, data, strings.Join(fr, ","))
+			if rng.Intn(2) == 0 {
+				bl += " rd=eof" // last bytes and io.EOF in one Read
+			}
 			bres := implChunkBuffered(bl)
 			rep.Compare(m, bl, implChunkBuffered, shrinkData)
 			rep.Count(bl, strings.Count(bres, ",") >= 1, "buffered:"+kind)
